@@ -147,11 +147,6 @@ class Model:
         return d * tolm + 2 * EPS * np.abs(exact_tensor)
 
 
-def shift_matrix_f(a):
-    a = np.asarray(a, dtype=np.float64)
-    return np.dot(a, a) * np.eye(3) - np.outer(a, a)
-
-
 def frame_oracle(model, I_c, tol_c, c, dc, mass, dmass, Tm):
     """R^T (I_c + mass M(t - c)) R exactly (Fractions) and a first-order tolerance.
     I_c: 3x3 of Fractions (already times density), c: exact centre used (list of Fractions), mass Fraction."""
@@ -321,19 +316,6 @@ def _blocks(kind, k, step, offset, block=2048):
     n = (total - offset + step - 1) // step  # number of sampled indices
     for b in range(0, n, block):
         yield {"kind": kind, "k": k, "start": offset + b * step, "step": step, "count": min(block, n - b)}
-
-
-@subcheck("C03", "grid", shards={"quick": 10, "thorough": 16})
-def s_grid(ctx):
-    ctx.enumerate("C03.grid", _blocks("tet", 2, 1, 0, block=512), label="tetra_grid_{0,1}^12")
-    ctx.enumerate("C03.grid", _blocks("pillow", 3, 1, 0, block=1024), label="pillow_grid_{0,1,2}^9")
-    if ctx.tier == "quick":
-        step = 4  # coprime with 3: every digit position takes every value
-        ctx.enumerate("C03.grid", _blocks("tet", 3, step, ctx.seed % step), label="tetra_grid_{0,1,2}^12_stride4", complete=False)
-    else:
-        ctx.enumerate("C03.grid", _blocks("tet", 3, 1, 0), label="tetra_grid_{0,1,2}^12")
-        ctx.enumerate("C03.grid", _blocks("tet", 4, 1, 0), label="tetra_grid_{0,1,2,3}^12")
-        ctx.enumerate("C03.grid", _blocks("pillow", 4, 1, 0), label="pillow_grid_{0,1,2,3}^9")
 
 
 # ======================================================================================= (b) generated meshes
@@ -603,6 +585,20 @@ def b_oracle(case, ctx):
 @subcheck("C03", "oracle", shards={"quick": 1, "thorough": 1})
 def s_oracle(ctx):
     ctx.given("C03.oracle", mesh_case(), n={"quick": 40, "thorough": 400})
+
+
+# registered last: the Hypothesis sub-checks above are scheduled first, the long enumeration fills the remaining workers
+@subcheck("C03", "grid", shards={"quick": 10, "thorough": 16})
+def s_grid(ctx):
+    ctx.enumerate("C03.grid", _blocks("tet", 2, 1, 0, block=512), label="tetra_grid_{0,1}^12")
+    ctx.enumerate("C03.grid", _blocks("pillow", 3, 1, 0, block=1024), label="pillow_grid_{0,1,2}^9")
+    if ctx.tier == "quick":
+        step = 4  # coprime with 3: every digit position takes every value
+        ctx.enumerate("C03.grid", _blocks("tet", 3, step, ctx.seed % step), label="tetra_grid_{0,1,2}^12_stride4", complete=False)
+    else:
+        ctx.enumerate("C03.grid", _blocks("tet", 3, 1, 0), label="tetra_grid_{0,1,2}^12")
+        ctx.enumerate("C03.grid", _blocks("tet", 4, 1, 0), label="tetra_grid_{0,1,2,3}^12")
+        ctx.enumerate("C03.grid", _blocks("pillow", 4, 1, 0), label="pillow_grid_{0,1,2,3}^9")
 
 
 REQUIRED_CLASSES["C03"] = [
